@@ -1,6 +1,7 @@
 // ---- prelude/std_extra.vs : assumed specifications of std functions vstd does not cover (A-std) ----
 pub mod stdx {
 use vstd::prelude::*;
+use vstd::std_specs::cmp::*;
 /// The sequence of items an `IntoIterator` value yields (uninterpreted; pinned for Vec below).
 pub uninterp spec fn iter_seq<I: IntoIterator>(i: I) -> Seq<I::Item>;
 
@@ -10,6 +11,27 @@ pub assume_specification<T, A: std::alloc::Allocator, I: IntoIterator<Item = T>>
 
 pub broadcast axiom fn ax_iter_seq_vec<T>(v: Vec<T>)
     ensures #[trigger] iter_seq(v) == v@;
+
+/// `keys` are the results of the key closure `f` on the elements of `s`
+pub open spec fn is_keys<'a, T: 'a, B, F: FnMut(&'a T) -> B>(s: Seq<T>, f: F, keys: Seq<B>) -> bool {
+    keys.len() == s.len()
+    && forall|j: int| #![trigger keys[j]] #![trigger s[j]] 0 <= j < s.len() ==> f.ensures((&s[j],), keys[j])
+}
+
+pub open spec fn keys_sorted<B: Ord>(keys: Seq<B>) -> bool {
+    forall|x: int, y: int| #![trigger keys[x], keys[y]] 0 <= x <= y < keys.len() ==> keys[x].cmp_spec(&keys[y]) != core::cmp::Ordering::Greater
+}
+
+// A-std: [T]::binary_search_by_key, for a key closure that is a total function of the element. On a slice
+// sorted by the key: Ok(i) => key(i) == b; Err(i) => i is the partition point (keys before are smaller,
+// keys from i on are greater).
+pub assume_specification<'a, T, B: Ord, F: FnMut(&'a T) -> B>[ <[T]>::binary_search_by_key ](s: &'a [T], b: &B, f: F) -> (r: Result<usize, usize>)
+    ensures
+        B::obeys_cmp_spec() ==> exists|keys: Seq<B>| #[trigger] is_keys(s@, f, keys) && (keys_sorted(keys) ==> match r {
+            Ok(i) => i < s@.len() && keys[i as int].cmp_spec(b) == core::cmp::Ordering::Equal,
+            Err(i) => i <= s@.len()
+                && (forall|j: int| 0 <= j < i ==> (#[trigger] keys[j]).cmp_spec(b) == core::cmp::Ordering::Less)
+                && (forall|j: int| i <= j < s@.len() ==> (#[trigger] keys[j]).cmp_spec(b) == core::cmp::Ordering::Greater),
+        });
 } // mod stdx
 use stdx::*;
-broadcast use stdx::ax_iter_seq_vec;
